@@ -48,6 +48,9 @@
 use crate::types::Value;
 use std::borrow::Cow;
 
+/// Last year of a date, as in MySQL. Dates beyond it are NULL.
+const MAX_YEAR: i64 = 9999;
+
 pub fn eval_datetime_function<'a>(name: &str, args: &[Option<Value<'a>>]) -> Option<Value<'a>> {
     match name {
         "NOW" | "CURRENT_TIMESTAMP" | "LOCALTIME" | "LOCALTIMESTAMP" | "SYSDATE" => eval_now(),
@@ -294,8 +297,8 @@ fn eval_date_add<'a>(args: &[Option<Value<'a>>]) -> Option<Value<'a>> {
 
     let (year, month, day) = parse_date(&date_str)?;
     let day_number = date_to_days(year, month, day);
-    let new_day_number = day_number + days;
-    let (new_year, new_month, new_day) = days_to_date(new_day_number);
+    let new_day_number = day_number.checked_add(days)?;
+    let (new_year, new_month, new_day) = days_to_date(new_day_number)?;
 
     Some(Value::Text(Cow::Owned(format!(
         "{:04}-{:02}-{:02}",
@@ -309,8 +312,8 @@ fn eval_date_sub<'a>(args: &[Option<Value<'a>>]) -> Option<Value<'a>> {
 
     let (year, month, day) = parse_date(&date_str)?;
     let day_number = date_to_days(year, month, day);
-    let new_day_number = day_number - days;
-    let (new_year, new_month, new_day) = days_to_date(new_day_number);
+    let new_day_number = day_number.checked_sub(days)?;
+    let (new_year, new_month, new_day) = days_to_date(new_day_number)?;
 
     Some(Value::Text(Cow::Owned(format!(
         "{:04}-{:02}-{:02}",
@@ -425,7 +428,7 @@ fn eval_to_days<'a>(args: &[Option<Value<'a>>]) -> Option<Value<'a>> {
 
 fn eval_from_days<'a>(args: &[Option<Value<'a>>]) -> Option<Value<'a>> {
     let days = get_int(args.first()?)?;
-    let (year, month, day) = days_to_date(days);
+    let (year, month, day) = days_to_date(days)?;
     Some(Value::Text(Cow::Owned(format!(
         "{:04}-{:02}-{:02}",
         year, month, day
@@ -442,7 +445,7 @@ fn eval_time_to_sec<'a>(args: &[Option<Value<'a>>]) -> Option<Value<'a>> {
 fn eval_sec_to_time<'a>(args: &[Option<Value<'a>>]) -> Option<Value<'a>> {
     let secs = get_int(args.first()?)?;
     let sign = if secs < 0 { "-" } else { "" };
-    let secs = secs.abs();
+    let secs = secs.unsigned_abs();
     let hours = secs / 3600;
     let mins = (secs % 3600) / 60;
     let s = secs % 60;
@@ -456,13 +459,13 @@ fn eval_makedate<'a>(args: &[Option<Value<'a>>]) -> Option<Value<'a>> {
     let year = get_int(args.first()?)?;
     let dayofyear = get_int(args.get(1)?)?;
 
-    if dayofyear < 1 {
+    if dayofyear < 1 || !(0..=MAX_YEAR).contains(&year) {
         return Some(Value::Null);
     }
 
     let jan1_days = date_to_days(year, 1, 1);
-    let target_days = jan1_days + dayofyear - 1;
-    let (y, m, d) = days_to_date(target_days);
+    let target_days = jan1_days.checked_add(dayofyear - 1)?;
+    let (y, m, d) = days_to_date(target_days)?;
 
     Some(Value::Text(Cow::Owned(format!(
         "{:04}-{:02}-{:02}",
@@ -509,11 +512,11 @@ fn eval_period_add<'a>(args: &[Option<Value<'a>>]) -> Option<Value<'a>> {
     let year = period / 100;
     let month = period % 100;
 
-    let total_months = year * 12 + month + months - 1;
+    let total_months = (year * 12 + month).checked_add(months)?.checked_sub(1)?;
     let new_year = total_months / 12;
     let new_month = total_months % 12 + 1;
 
-    Some(Value::Int(new_year * 100 + new_month))
+    Some(Value::Int(new_year.checked_mul(100)?.checked_add(new_month)?))
 }
 
 fn eval_period_diff<'a>(args: &[Option<Value<'a>>]) -> Option<Value<'a>> {
@@ -560,7 +563,7 @@ fn parse_date(s: &str) -> Option<(i64, u32, u32)> {
     let month: u32 = parts[1].parse().ok()?;
     let day: u32 = parts[2].parse().ok()?;
     // callers index month tables and do day arithmetic with these
-    if !(1..=12).contains(&month) || !(1..=31).contains(&day) {
+    if !(0..=MAX_YEAR).contains(&year) || !(1..=12).contains(&month) || !(1..=31).contains(&day) {
         return None;
     }
     Some((year, month, day))
@@ -605,7 +608,11 @@ fn date_to_days(year: i64, month: u32, day: u32) -> i64 {
     365 * y + y / 4 - y / 100 + y / 400 + (153 * (m as i64 - 3) + 2) / 5 + day as i64 - 306
 }
 
-fn days_to_date(days: i64) -> (i64, u32, u32) {
+/// The date of a day number, if it lies in the years 0..=MAX_YEAR.
+fn days_to_date(days: i64) -> Option<(i64, u32, u32)> {
+    if !(date_to_days(0, 1, 1)..=date_to_days(MAX_YEAR, 12, 31)).contains(&days) {
+        return None;
+    }
     let z = days + 306;
     let h = 100 * z - 25;
     let a = h / 3652425;
@@ -615,7 +622,7 @@ fn days_to_date(days: i64) -> (i64, u32, u32) {
     let m = (5 * c + 456) / 153;
     let d = c - (153 * m - 457) / 5;
     let (year, month) = if m > 12 { (y + 1, m - 12) } else { (y, m) };
-    (year, month as u32, d as u32)
+    Some((year, month as u32, d as u32))
 }
 
 fn day_of_week(year: i64, month: u32, day: u32) -> u32 {
@@ -737,7 +744,11 @@ fn format_datetime_with_pattern(datetime_str: &str, pattern: &str) -> String {
     };
     let am_pm = if hour_num < 12 { "AM" } else { "PM" };
 
-    let year_num: i64 = year.parse().unwrap_or(0);
+    let year_num: i64 = year
+        .parse()
+        .ok()
+        .filter(|y| (0..=MAX_YEAR).contains(y))
+        .unwrap_or(0);
     let month_num: u32 = month.parse().unwrap_or(1);
     let day_num: u32 = day.parse().unwrap_or(1);
 
